@@ -18,7 +18,7 @@ DECIDING = ["C18.lattice_invariant", "C18.get_nodes", "C18.half_hypercube"]
 RULE = ("complete chains of subdivisions: icosahedron and cube to level 4 (2562 / 1538 nodes), hypercube to level 2 (544 nodes); the invariant "
         "is evaluated after construction and after every divide_edges (index permanence against the snapshot taken before the call); between "
         "subdivisions get_nodes(N, projection) and get_half_of_hypercube(N, projection) are called with many N (quick: a fixed spread, thorough: "
-        "random interleavings incl. repeated calls that populate the sorted-node cache). A case = (polytope, level, getter history); "
+        "random interleavings incl. repeated calls that populate the sorted-node cache); some chains query only after selected levels (query -> divide -> divide -> query). A case = (polytope, level, getter history); "
         "non-trivial = level >= 1; distinct by (polytope, level, history digest)")
 ASSUMPTIONS = ["set equality by nearest-neighbour bijection at 1e-9", "hypercube level 3 (4160 nodes, tens of minutes of edge search) is beyond the "
                "property's own bound and not run"]
@@ -240,18 +240,21 @@ def getter_history(p, kind, rng, n_calls):
     return hist
 
 
-def run_chain(pt, kind, top, rng, n_calls):
+def run_chain(pt, kind, top, rng, n_calls, query_levels=None):
+    """query_levels: the levels after which getters are called (None = every level); skipping levels gives histories like
+    query -> divide -> divide -> query, which a cache that is only extended level by level does not survive"""
     cls = {"ico": pt.IcosahedronPolytope, "cube3D": pt.Cube3DPolytope, "cube4D": pt.Cube4DPolytope}[kind]
-    REC.begin_case({"polytope": kind, "level": 0}, cls=f"{kind} level 0")
+    REC.begin_case({"polytope": kind, "level": 0, "query_levels": query_levels}, cls=f"{kind} level 0")
     try:
         p = cls()
-        hist = getter_history(p, kind, rng, n_calls)
+        hist = getter_history(p, kind, rng, n_calls) if query_levels is None or 0 in query_levels else []
         for level in range(1, top + 1):
-            REC.begin_case({"polytope": kind, "level": level, "getter_history_before": hist}, cls=f"{kind} level {level}",
-                           sample=(level == 1))
+            REC.begin_case({"polytope": kind, "level": level, "getter_history_before": hist, "query_levels": query_levels},
+                           cls=f"{kind} level {level}", sample=(level == 1))
             p.divide_edges()
-            hist = getter_history(p, kind, rng, n_calls)
-            REC.nontrivial_case((kind, level, hist))
+            if query_levels is None or level in query_levels:
+                hist = hist + getter_history(p, kind, rng, n_calls)
+            REC.nontrivial_case((kind, level, hist, query_levels))
     except Exception as e:
         REC.crashed("C18.call_raised", e)
 
@@ -259,6 +262,9 @@ def run_chain(pt, kind, top, rng, n_calls):
 def shards(tier, seed):
     out = [{"kind": "ico", "top": 4}, {"kind": "cube3D", "top": 4}, {"kind": "cube4D", "top": 2},
            {"kind": "ico", "top": 3}, {"kind": "cube3D", "top": 3}, {"kind": "cube4D", "top": 1}]
+    out += [{"kind": "ico", "top": 3, "query_levels": [0, 2]}, {"kind": "ico", "top": 3, "query_levels": [1, 3]},
+            {"kind": "cube3D", "top": 3, "query_levels": [0, 2, 3]}, {"kind": "cube3D", "top": 2, "query_levels": [2]},
+            {"kind": "cube4D", "top": 2, "query_levels": [0, 2]}, {"kind": "cube4D", "top": 2, "query_levels": [2]}]
     for i, s in enumerate(out):
         s["rseed"] = seed * 100 + i
         s["calls"] = 8 if tier == "quick" else 60
@@ -273,9 +279,9 @@ def shards(tier, seed):
 
 def run_shard(spec):
     pt = install()
-    run_chain(pt, spec["kind"], spec["top"], random.Random(spec["rseed"]), spec["calls"])
+    run_chain(pt, spec["kind"], spec["top"], random.Random(spec["rseed"]), spec["calls"], spec.get("query_levels"))
 
 
 def replay(case):
     pt = install()
-    run_chain(pt, case["polytope"], case["level"], random.Random(0), 8)
+    run_chain(pt, case["polytope"], case["level"], random.Random(0), 8, case.get("query_levels"))
